@@ -164,6 +164,27 @@ func c08Transcripts() []c08Transcript {
 		t.msgs = append(t.msgs, sigMsg("b", 2))
 		addDone(t, b)
 	}
+	{ // a step-fatal error that names no run fails every pending run; the plugin lives on and serves another run
+		t := mk("v3-step-fatal-without-run-id-then-run", 3)
+		a, b, c := ex("a", "echo", nil), ex("b", "sig", nil), ex("c", "echo", map[string]any{"payload": "after"})
+		b.Emitted = true
+		t.groups = [][]rig.ExecSpec{{a, b}, {c}}
+		failAll := errMsg("", "missing run ID in a message of the client", true, false, "")
+		failAll.gateCount = 3 // the start message and both work-starts: both runs are registered by then
+		t.msgs = append(t.msgs, failAll)
+		t.expectID["a"], t.expectID["b"] = "", ""
+		addDone(t, c)
+	}
+	{ // the same error as the last thing the plugin says before the client closes (the plugin lingers: it does not
+		// end its output by itself)
+		t := mk("v3-step-fatal-without-run-id-last", 3)
+		a, b := ex("a", "echo", nil), ex("b", "echo", nil)
+		t.groups = [][]rig.ExecSpec{{a, b}}
+		failAll := errMsg("", "missing run ID in a message of the client", true, false, "")
+		failAll.gateCount = 3
+		t.msgs = append(t.msgs, failAll)
+		t.expectID["a"], t.expectID["b"] = "", ""
+	}
 	{ // legacy v1: two serial runs, unwrapped messages
 		t := mk("v1-two-serial", 1)
 		a, b := ex("a", "echo", nil), ex("b", "echo2", map[string]any{"payload": 1.5})
@@ -367,6 +388,9 @@ func c08Replay(t *c08Transcript, f c08Fault, s2cMode rig.Mode, chunkSeed uint64)
 							toStep = make(chan schema.Input) // stays open: the caller is not obliged to close it
 						}
 						o.Result = cli.Execute(schema.Input{RunID: o.Spec.RunID, ID: o.Spec.StepID, InputData: o.Spec.Input}, toStep, from)
+						// a consumer ranging over the emitted signals is a caller, too: the channel is closed when the run
+						// is over, however it ended
+						dr.Wait()
 						atomic.AddInt32(&o.Returned, 1)
 					}()
 				}
